@@ -31,7 +31,7 @@ LEVEL_TEXT = ("see DESIGN §6 C02 and the theorem list in lean/Ctrmml/Properties
               "channel; chunk < 64 KiB) and every channel track in "
               "Timeline.inDomain, the interpreter started at the position the track table lists plays, after masking of index operands, exactly Timeline.expected (calls to any depth "
               "through the pointer table in either drum-mode state, notes in drum mode through their routines, what is replayed after the loop-back jump). Outside the fragment "
-              "(pitch envelopes, platform `cmd` with index-bearing or unknown opcodes, optimised songs, drum mode switched inside loops / by callees = D25) "
+              "(pitch envelopes, platform `cmd` with index-bearing or unknown opcodes, optimised songs, drum mode switched inside loops / by callees = D27) "
               "the statement C02_full_statement is decided per case by the spec interpreter on the REAL bytes against Spec/Timeline; the judge marks the cases that are instances "
               "of the whole-song theorem (ok proved-fragment) and cross-checks the constructor model the theorem is stated over (MdsFile.construct) against the real bytes.")
 LEVEL_NOTE = ("Trusted: Lean kernel; Model/MdsCodec+MdsConv+MdsFile (byte-exact agreement with mdsdrv.cpp by differential testing); Spec/SeqInterp = my reconstruction of the MDSDRV "
@@ -40,7 +40,7 @@ LEVEL_NOTE = ("Trusted: Lean kernel; Model/MdsCodec+MdsConv+MdsFile (byte-exact 
               "without loop point / drum-mode switch, drum-mode switches outside loops, routine tracks = timeless commands before the first note, loop section ending in the drum state it "
               "starts in, no pitch envelope, platform commands agreeing between converter and timeline (PlatAgree), acceptance by the constructor). Still decided per case by the "
               "oracle: pitch envelopes, exotic platform `cmd` opcodes, optimised songs (D2), acceptance (that the converter accepts every encodable song). Known: D2, D24 (loop point in a called channel track), "
-              "D25 (drum mode decided in text order by the writer, in execution order by the driver).")
+              "D27 (drum mode decided in text order by the writer, in execution order by the driver).")
 RULE = ("IR songs in the encodable domain from the song grammar (1..4 channel tracks, subroutines, drum routines, loops with breaks, loop point at depth 0, commands, platform commands, "
         "instruments) + adjacency sweep: ordered triples over {explicit note, implicit-length note, tie, rest<128, rest>=128, rest=last rest, command, SEGNO, LP, LPB, LPF, PAT} x durations "
         "{1,2,127,128,129,256,65535}; non-trivial = has loop/call/segno/long duration; distinct by request text")
@@ -74,9 +74,9 @@ CORPUS = [
     # drum mode inside the oracle's domain (routine ids < 94, routine notes with an on-time)
     "conv T0:26.1.0.0,2.80.6.2,2.81.3.1,26.0.0.0,2.36.3.1 T80:13.7.0.0,2.40.1.0 T81:21.1.0.0,4.0.0.0,14.1.0.0,6.2.0.0,2.41.1.0,2.42.1.0",
     "conv T0:2.80.4.0,7.0.0.0,26.1.0.0,4.0.0.0,2.80.6.2,5.0.0.0,2.80.3.1,6.3.0.0,26.0.0.0 T80:13.7.0.0,2.40.1.0",
-    "conv T0:26.1.0.0,7.0.0.0,2.81.1.1,26.0.0.0 T81:4.0.0.0,6.2.0.0,2.2.1.0",   # D25 (known): replayed in the other drum-mode state
-    "conv T0:4.0.0.0,2.36.24.0,26.1.0.0,6.2.0.0 T36:13.7.0.0,2.40.1.0,2.41.1.0",  # D25 (known): drum mode switched on inside a loop
-    "conv T0:8.100.0.0,2.36.2.2 T100:2.36.1.1,26.1.0.0 T36:13.7.0.0,2.40.1.0",      # D25 (known): a subroutine switches drum mode for its caller
+    "conv T0:26.1.0.0,7.0.0.0,2.81.1.1,26.0.0.0 T81:4.0.0.0,6.2.0.0,2.2.1.0",   # D27 (known): replayed in the other drum-mode state
+    "conv T0:4.0.0.0,2.36.24.0,26.1.0.0,6.2.0.0 T36:13.7.0.0,2.40.1.0,2.41.1.0",  # D27 (known): drum mode switched on inside a loop
+    "conv T0:8.100.0.0,2.36.2.2 T100:2.36.1.1,26.1.0.0 T36:13.7.0.0,2.40.1.0",      # D27 (known): a subroutine switches drum mode for its caller
     "conv T0:26.1.0.0,8.100.0.0,26.0.0.0 T100:2.36.1.1 T36:13.7.0.0,2.40.1.0",     # a subroutine called in drum mode is written in drum mode
 ]
 
@@ -173,7 +173,7 @@ def _cases_orig(rng, tier):
                     e = (e[0], rng.choice([80, 81]), e[2], e[3])
                 evs.append(e)
             # drum mode is switched on behind the loop point (so that the replayed section starts in the state it was
-            # written in); one case in five switches it on at the start of the track: with a loop point that is D25
+            # written in); one case in five switches it on at the start of the track: with a loop point that is D27
             segs = [i for i, e in enumerate(evs) if e[0] == T["SEGNO"]]
             at = segs[-1] + 1 if segs and rng.random() < 0.8 else 0
             evs = evs[:at] + [g.ev("DRUM_MODE", 1)] + evs[at:]
@@ -278,7 +278,7 @@ def segno_in_callee(req):
 
 
 def drum_dynamic(req, budget=60000):
-    """D25: some note is reached in a drum-mode state (execution order: the Player and the MDSDRV flag byte) that
+    """D27: some note is reached in a drum-mode state (execution order: the Player and the MDSDRV flag byte) that
     differs from the state the track writer had when it wrote the note (text order; a channel writer starts with
     drum mode off, a subroutine's writer with the state its caller's writer had at the call).  Played the way
     Basic_Player does: loops, breaks, calls, drum routines, the loop-back once."""
